@@ -605,25 +605,26 @@ Section KwpExact.
   Hypothesis D_len : forall b, length b = 16%nat -> length (D b) = 16%nat.
   Hypothesis DE : forall b, length b = 16%nat -> D (E b) = b.
   Hypothesis ED : forall b, length b = 16%nat -> E (D b) = b.
-  Hypothesis D_wf : forall b, wfb (D b).
+  Hypothesis D_wf : forall b, wfb b -> wfb (D b).
 
-  Lemma unwrap_pass_wf i n : forall rs A, (wfb A \/ rs <> []) ->
-    wfb (fst (unwrap_pass D i n A rs)) /\ Forall wfb (snd (unwrap_pass D i n A rs)).
+  Lemma xor_ctr_wf A t : wfb A -> wfb (xor_ctr A t).
   Proof.
-    induction rs as [|r rs IH]; intros A H.
-    - cbn. split; [|constructor]. destruct H as [H|H]; [exact H|congruence].
-    - cbn [unwrap_pass]. set (b := D _).
-      specialize (IH (firstn 8 b) (or_introl (wfb_firstn 8 b (D_wf _)))).
-      destruct (unwrap_pass D i n (firstn 8 b) rs) as [A' out]. cbn [fst snd] in *.
-      destruct IH as [I1 I2]. split; [exact I1|]. constructor; [|exact I2].
-      apply wfb_skipn. apply D_wf.
+    intros H. unfold xor_ctr. apply wfb_app. split; [apply wfb_firstn; exact H|].
+    apply xorb_wf; [apply wfb_skipn; exact H|apply be_bytes_wf].
   Qed.
 
-  Lemma unwrap_pass_length i n : forall rs A, length (snd (unwrap_pass D i n A rs)) = length rs.
+  Lemma unwrap_pass_wf i n : forall rs A, wfb A -> Forall wfb rs ->
+    wfb (fst (unwrap_pass D i n A rs)) /\ Forall wfb (snd (unwrap_pass D i n A rs)).
   Proof.
-    induction rs as [|r rs IH]; intros A; [reflexivity|]. cbn [unwrap_pass].
-    specialize (IH (firstn 8 (D (xor_ctr A (N.of_nat (i * n + length rs + 1)) ++ r)))).
-    destruct (unwrap_pass D i n _ rs). cbn [snd length] in *. lia.
+    induction rs as [|r rs IH]; intros A HA Hrs.
+    - cbn. split; [exact HA|constructor].
+    - inversion Hrs; subst. cbn [unwrap_pass]. set (b := D _).
+      assert (Wb : wfb b).
+      { unfold b. apply D_wf. apply wfb_app. split; [apply xor_ctr_wf; exact HA|assumption]. }
+      specialize (IH (firstn 8 b) (wfb_firstn 8 b Wb) ltac:(assumption)).
+      destruct (unwrap_pass D i n (firstn 8 b) rs) as [A' out]. cbn [fst snd] in *.
+      destruct IH as [I1 I2]. split; [exact I1|]. constructor; [|exact I2].
+      apply wfb_skipn. exact Wb.
   Qed.
 
   Lemma unwrap_rounds_wf n : forall k A rs, wfb A -> Forall wfb rs ->
@@ -631,29 +632,24 @@ Section KwpExact.
   Proof.
     induction k as [|k IH]; intros A rs HA Hrs; [cbn; auto|].
     cbn [unwrap_rounds].
-    pose proof (unwrap_pass_wf k n rs A (or_introl HA)) as [W1 W2].
+    pose proof (unwrap_pass_wf k n rs A HA Hrs) as [W1 W2].
     destruct (unwrap_pass D k n A rs) as [A' rs']. apply IH; assumption.
   Qed.
 
-  Lemma unwrap_rounds_wf1 n k A rs : rs <> [] ->
-    wfb (fst (unwrap_rounds D (S k) n A rs)) /\ Forall wfb (snd (unwrap_rounds D (S k) n A rs)).
+  Lemma blocks8_wf n : forall b, wfb b -> Forall wfb (blocks8 n b).
   Proof.
-    intros H. cbn [unwrap_rounds].
-    pose proof (unwrap_pass_wf k n rs A (or_intror H)) as [W1 W2].
-    destruct (unwrap_pass D k n A rs) as [A' rs']. apply unwrap_rounds_wf; assumption.
+    induction n as [|n IH]; intros b H; cbn [blocks8]; constructor.
+    - apply wfb_firstn. exact H.
+    - apply IH. apply wfb_skipn. exact H.
   Qed.
 
-  Lemma invertW_wf c u : (24 <= length c)%nat -> invertW D c = Ok u -> wfb u.
+  Lemma invertW_wf c u : wfb c -> invertW D c = Ok u -> wfb u.
   Proof.
-    intros Hc. unfold invertW. destruct (_ || _)%bool; [discriminate|].
+    intros Wc. unfold invertW. destruct (_ || _)%bool; [discriminate|].
     set (n := (length c / 8 - 1)%nat).
-    assert (Hn : (2 <= n)%nat).
-    { unfold n. pose proof (Nat.div_mod (length c) 8 ltac:(lia)).
-      pose proof (Nat.mod_upper_bound (length c) 8 ltac:(lia)). lia. }
-    assert (Hne : rev (blocks8 n (skipn 8 c)) <> []).
-    { intros Hz. apply (f_equal (@length _)) in Hz. rewrite rev_length, blocks8_length in Hz. simpl in Hz. lia. }
-    pose proof (unwrap_rounds_wf1 n 5 (firstn 8 c) _ Hne) as [W1 W2].
-    unfold roundCount. destruct (unwrap_rounds D 6 n (firstn 8 c) _) as [A rs]. cbn [fst snd] in *.
+    pose proof (unwrap_rounds_wf n roundCount (firstn 8 c) (rev (blocks8 n (skipn 8 c)))
+                  (wfb_firstn 8 c Wc) (Forall_rev (blocks8_wf n _ (wfb_skipn 8 c Wc)))) as [W1 W2].
+    destruct (unwrap_rounds D roundCount n (firstn 8 c) _) as [A rs]. cbn [fst snd] in *.
     intros Hu. inversion Hu; subst. apply wfb_app. split; [exact W1|].
     apply wfb_concat. apply Forall_rev. exact W2.
   Qed.
@@ -666,10 +662,10 @@ Section KwpExact.
     intros W L. rewrite be_val_bev. pose proof (bev_lt p W) as H. rewrite L in H. exact H.
   Qed.
 
-  Theorem kwp_unwrap_only_wrappings c d : kwp_unwrap D c = Ok d ->
+  Theorem kwp_unwrap_only_wrappings c d : wfb c -> kwp_unwrap D c = Ok d ->
     9 <= N.of_nat (length d) <= 8192 /\ c = wrap_rfc5649 E d.
   Proof.
-    intros H.
+    intros Wc H.
     destruct (N.lt_ge_cases (N.of_nat (length c)) 24) as [C1|C1];
       [rewrite (kwp_unwrap_size_limits D) in H by (left; exact C1); discriminate|].
     destruct (N.lt_ge_cases 8200 (N.of_nat (length c))) as [C2|C2];
@@ -682,7 +678,7 @@ Section KwpExact.
     set (u := A ++ concat rs) in *.
     assert (Hu : length u = length c)
       by (unfold u; rewrite app_length, concat_length_blocks by assumption; unfold bytes in *; lia).
-    assert (Wu : wfb u) by (apply (invertW_wf c u); [lia|exact HI]).
+    assert (Wu : wfb u) by (apply (invertW_wf c u); [exact Wc|exact HI]).
     rewrite (kwp_unwrap_eq D c ltac:(lia) C3 u HI Hu) in H.
     unfold unwrap_checks in H.
     destruct (negb (N.eqb (be_val (firstn 4 u)) ivPrefix)) eqn:K1; [discriminate|].
@@ -730,21 +726,23 @@ Section KwpExact.
       rewrite blocks8_concat by assumption. reflexivity.
   Qed.
 
-  Theorem kwp_unwrap_exact c d :
-    kwp_unwrap D c = Ok d <-> (9 <= N.of_nat (length d) <= 8192 /\ c = wrap_rfc5649 E d).
+  Theorem kwp_unwrap_exact c d : wfb c ->
+    (kwp_unwrap D c = Ok d <-> (9 <= N.of_nat (length d) <= 8192 /\ c = wrap_rfc5649 E d)).
   Proof.
-    split; [apply kwp_unwrap_only_wrappings|].
+    intros Wc. split; [apply kwp_unwrap_only_wrappings; exact Wc|].
     intros [Hd ->]. apply (kwp_unwrap_wrap_rfc E D); assumption.
   Qed.
 
-  Theorem kwp_exact_acceptance c d : 16 <= N.of_nat (length d) ->
+  Theorem kwp_exact_acceptance c d : wfb c -> 16 <= N.of_nat (length d) ->
     (kwp_unwrap D c = Ok d <-> kwp_wrap E d = Ok c).
   Proof.
-    intros H16. rewrite kwp_unwrap_exact. split.
-    - intros [Hd ->]. apply (kwp_wrap_rfc5649 E E_len). lia.
+    intros Wc H16. split.
+    - intros H. apply kwp_unwrap_only_wrappings in H; [|exact Wc].
+      destruct H as [Hd ->]. apply (kwp_wrap_rfc5649 E E_len). lia.
     - intros Hw. destruct (N.lt_ge_cases 8192 (N.of_nat (length d))) as [C|C].
       + rewrite (kwp_wrap_size_limits E) in Hw by (right; exact C). discriminate.
-      + rewrite (kwp_wrap_rfc5649 E E_len) in Hw by lia. inversion Hw. split; [lia|reflexivity].
+      + rewrite (kwp_wrap_rfc5649 E E_len) in Hw by lia. inversion Hw.
+        apply (kwp_unwrap_wrap_rfc E D); auto. lia.
   Qed.
 
   Theorem kwp_unwrap_no_panic c : kwp_unwrap D c <> Panic.
@@ -763,5 +761,14 @@ Section KwpExact.
     unfold unwrap_checks.
     destruct (negb _); [discriminate|]. destruct (negb _); [discriminate|].
     destruct (negb _); discriminate.
+  Qed.
+
+  Theorem kwp_rejects_non_wrappings c : wfb c ->
+    (forall d, 9 <= N.of_nat (length d) <= 8192 -> c <> wrap_rfc5649 E d) -> kwp_unwrap D c = Err.
+  Proof.
+    intros Wc Hn. destruct (kwp_unwrap D c) as [d| |] eqn:Hu; [|reflexivity|].
+    - apply kwp_unwrap_only_wrappings in Hu; [|exact Wc]. destruct Hu as [Hd Hc].
+      destruct (Hn d Hd Hc).
+    - destruct (kwp_unwrap_no_panic c Hu).
   Qed.
 End KwpExact.
